@@ -24,6 +24,7 @@ FLOORS["class:mixed-bad-item"] = 100
 FLOORS["class:construct-refused-while-writing"] = 200
 FLOORS["hybrid_array_limited_view"] = 100
 FLOORS["union_object_at_offset_without_buffer"] = 300
+FLOORS["hybrid_move_or_copy_to_offset_without_buffer"] = 200
 FLOORS.update({"negative_index_assignments": 100, "non_member_from_same_family": 50, "allocations_after_refusal": 5000,
                "hybrid_copy_with_contradictory_destination": 300, "refused_construction_at_explicit_offset": 100})
 FLOORS.update({"multibyte_too_long_strings": 300, "misuse_value_as_xobject": 300})
@@ -461,7 +462,18 @@ def _plan(cls_, rng, c, allnodes, env):
         def fn(base):
             c.cls(arg, _buffer=other, _context=ctxs()[0])
         return "root", "T(value, _buffer=<buffer of context B>, _context=<context A>)", fn
-    if cls_ == "offset-no-buffer" and rng.random() < 0.3:
+    if cls_ == "offset-no-buffer" and rng.random() < 0.25:
+        # a dressed object asked to move / copy itself to an explicit offset, without saying in which buffer
+        hy = _hybrid()(a=1.5, b=[1, 2, 3], _buffer=env.buf)
+        env.repoison()
+        off = rng.choice([0, 8, 24, int(hy._offset)])
+        how = rng.choice(["move", "copy"])
+
+        def fn(base):
+            getattr(hy, how)(_offset=off)
+        _W[0].count("hybrid_move_or_copy_to_offset_without_buffer")
+        return "root", f"hybrid.{how}(_offset={off}) without buffer (the object lives at {int(hy._offset)})", fn
+    if cls_ == "offset-no-buffer" and rng.random() < 0.4:
         # a union reference object built from an existing object, at an explicit offset, without a buffer
         U = type(f"XvU{t['n']}", (xo.UnionRef,), {"_reftypes": [c.cls]})
         tgt = c.cls(arg, _buffer=env.buf)
